@@ -38,7 +38,14 @@ EdgeOK(i) ==
     LET e == G.edges[i]
         d == Do(st, e.a)
         n == NodeSt(e.dst)
-    IN  /\ Chk(Enabled(st, e.a), <<"EDGE_REJECTED", i, "not-enabled-in-spec">>)
+    IN  IF e.a.act = "RxFuzz"
+        THEN Chk(Enabled(st, e.a) /\ FuzzOK(st, e.a.t, e.out, n),
+                 <<"EDGE_REJECTED", i, "an arbitrary frame of", e.a.t, "touched somebody else",
+                   "packets", e.out.pk, "handler-calls", e.out.hc, "callbacks", e.out.cbs,
+                   "bystanders before", Prune(BystanderView(st, e.a.t)),
+                   "after", Prune(BystanderView(n, e.a.t))>>)
+        ELSE
+        /\ Chk(Enabled(st, e.a), <<"EDGE_REJECTED", i, "not-enabled-in-spec">>)
         /\ \A f \in DOMAIN n : Chk(d.s[f] = n[f], <<"EDGE_REJECTED", i, "state", f, "spec", d.s[f], "impl", n[f]>>)
         /\ Chk(d.pk = e.out.pk, <<"EDGE_REJECTED", i, "packets", "spec", d.pk, "impl", e.out.pk>>)
         /\ Chk(d.hc = e.out.hc, <<"EDGE_REJECTED", i, "handler-calls", "spec", d.hc, "impl", e.out.hc>>)
